@@ -70,6 +70,10 @@ def plan(r, fmt, ntok, nchar, kinds=None):
     kinds = kinds or ["truncate_tok", "truncate_char", "delete", "duplicate", "replace", "dangling", "unsupported",
                       "read_error"]
     k = r.choice(kinds)
+    if fmt == "v" and k == "replace" and r.random() < 0.4:
+        # a replaced token of a particular kind: the module an instantiation names becomes another module of the
+        # file (self-instancing modules, mutual recursion, a second root ...)
+        return [{"f": "module_swap", "n": r.randint(0, 50), "m": r.randint(0, 50)}]
     if k == "truncate_tok":
         return [{"f": k, "at": r.randint(0, max(0, ntok - 1))}]
     if k == "truncate_char":
@@ -118,6 +122,15 @@ def apply(fmt, text, plan_items):
             toks[k] = toks[it["src"] % len(toks)]
             changed = True
             facts["applied"].append(f)
+        elif f == "module_swap" and fmt == "v":
+            names = [toks[i + 1] for i, t in enumerate(toks[:-1]) if t == "module"]
+            uses = [i for i, t in enumerate(toks) if t in names and i > 0 and toks[i - 1] != "module"]
+            if uses and len(names) > 1:
+                k = uses[it["n"] % len(uses)]
+                others = [x for x in names if x != toks[k]]
+                toks[k] = others[it["m"] % len(others)]
+                changed = True
+                facts["applied"].append("replace")
         elif f == "dangling" and fmt == "edf":
             pos = [i for i, t in enumerate(toks[:-1]) if t.lower() == it["which"] and toks[i + 1] not in ("(", ")")]
             if pos:
